@@ -1,5 +1,5 @@
 (* C04 - block (operator-matrix) algebra: the identities LinearOperatorMatrix.__matmul__, .H and the stacking operators & and | rest on. *)
-From MrVerif Require Import Base.Prelude Base.StarRing Base.Sums Model.OpAlg Model.ElemOps Model.Algebra Proofs.OpAlgProofs.
+From MrVerif Require Import Base.Prelude Base.StarRing Base.Sums Model.OpAlg Model.ElemOps Model.Algebra Model.Wavelet Proofs.OpAlgProofs.
 Local Open Scope nat_scope.
 
 Section BlockAlg.
@@ -62,5 +62,14 @@ Section BlockAlg.
     destruct (Nat.ltb_spec i (ran A)) as [Hlt|Hge].
     - apply F1. exact Hlt.
     - apply F2. lia.
+  Qed.
+
+  (* LinearOperatorMatrix.from_diagonal: the block-diagonal operator is the matrix with zero operators off the diagonal *)
+  Lemma bdiag_as_blocks (A B : linop) :
+    opeq (bdiag A B) (vstack (hstack A (zeroop (R:=R) (dom B) (ran A))) (hstack (zeroop (R:=R) (dom A) (ran B)) B)).
+  Proof.
+    unfold opeq. cbn [bdiag vstack hstack zeroop dom ran fwd adj]. repeat split.
+    - intros x i Hi. destruct (Nat.ltb i (ran A)); ring.
+    - intros y j Hj. destruct (Nat.ltb j (dom A)); ring.
   Qed.
 End BlockAlg.
